@@ -17,7 +17,8 @@ LEVEL = "fault_enumeration"
 EXHAUSTIVE = True
 RULE = ("case = value length x CRC {granted, refused by server, not requested} ; within a case every set of <= D faults over "
         "{lost, bit flip, duplicate} at every segment (first transmissions and retransmissions) and {wrong crc, wrong n, wrong "
-        "ss, lost} at the end frame; non-trivial = executions with >= 1 fault or >= 2 segments")
+        "ss, lost} at the end frame; the value is read with one read() and, for selected lengths, through raw / 4- / 16-byte "
+        "buffered streams with cyclic read-size plans {3,64},{2,50},{1},{6,7},{7,1},{64,3},{5}; non-trivial = executions with >= 1 fault or >= 2 segments")
 ASSUMPTIONS = [
     "a bit flip without negotiated CRC is undetectable by any client and is excluded by rule",
     "differing data with the same CRC-16 as the server's value (collision) is excluded by rule and counted",
@@ -42,6 +43,13 @@ def cases(tier, seed):
             if crc != "not-requested" and (tier == "thorough" or n % 3 == 1):
                 # a conformant server need not indicate the size in its block upload response
                 out.append({"n": n, "crc": crc, "D": min(D, 1 if tier == "quick" else 2), "seed": seed, "nosize": True})
+    # histories of read() calls with varying sizes on one stream (raw and through small buffered readers)
+    for n in ((8, 15, 22, 36) if tier == "quick" else (8, 9, 15, 22, 36, 50, 64)):
+        for buf in (0, 4, 16):
+            for plan in ([3, 64], [2, 50], [1], [6, 7], [7, 1], [64, 3], [5]):
+                for crc in ("granted", "not-requested"):
+                    out.append({"n": n, "crc": crc, "D": 1 if n <= 22 or tier == "thorough" else 0, "seed": seed,
+                                "buffering": buf, "reads": plan})
     big = [888, 889, 890] if tier == "quick" else [888, 889, 890, 1777, 1778, 1779, 10000]
     for n in big:
         for crc in ("granted", "refused"):
@@ -92,9 +100,21 @@ def one(case, ch):
     link = RefLink(srv, resp_filter=resp_filter)
     err = got = None
     try:
+        kw = {} if case.get("buffering") is None else {"buffering": case["buffering"]}
         with link.node.sdo.open(MUX[0], MUX[1], "rb", block_transfer=True,
-                                request_crc_support=case["crc"] != "not-requested") as fp:
-            got = fp.read()
+                                request_crc_support=case["crc"] != "not-requested", **kw) as fp:
+            if case.get("reads"):
+                got, k = b"", 0
+                while True:
+                    chunk = fp.read(case["reads"][k % len(case["reads"])])
+                    k += 1
+                    if not chunk:
+                        break
+                    got += chunk
+                    if k > 4 * n + 8:
+                        raise AssertionError("read() never reports the end of the data")
+            else:
+                got = fp.read()
     except Exception as e:  # noqa: BLE001
         err = e
     acks = [(f[1], f[2]) for f in map(bytes.fromhex, srv.frames) if f[0] == 0xA2]
